@@ -24,6 +24,19 @@ var commonTrusted = []string{
 var properties = map[string]*propertyDef{}
 
 func init() {
+	properties["T00"] = &propertyDef{Decides: "debug", Run: func(c *rules.Ctx) []report.Obligation {
+		var o []report.Obligation
+		o = append(o, c.A1("A1", "override.mergeSpecials", "override.unique", "transform.transformers", "transform.defaultValues", "loader.interpolateTypeCastMapping", "paths.relativePathsResolver.resolvers", "validation.checks")...)
+		o = append(o, c.A2("A2", "override.mergeSpecials", "override.unique", "transform.transformers", "transform.defaultValues", "loader.interpolateTypeCastMapping", "paths.relativePathsResolver.resolvers", "validation.checks", "loader.omitempty", "loader.userDefinedKeys")...)
+		o = append(o, c.A4("A4")...)
+		o = append(o, c.A5("A5")...)
+		o = append(o, c.A6("A6")...)
+		o = append(o, c.A7("A7")...)
+		o = append(o, c.A9("A9")...)
+		o = append(o, c.A10("A10")...)
+		o = append(o, c.A3("A3")...)
+		return o
+	}}
 	properties["C01"] = &propertyDef{
 		Decides:    "no unchecked type assertion on input-derived data in code reachable from the load entry points outside the proved / justified / known set (PANIC-TA)",
 		NotDecided: "termination, stack bounds, nil dereferences, panics inside dependencies",
